@@ -11,6 +11,7 @@ def check(ctx):
     ctx.rule("C03.T3", "in the parallel stale check every worker writes only its own node's entry and reads only predecessors' entries")
     ctx.rule("C03.T4", "every registry entry is transformed; is_stale = membership in the stale set; every write node is required")
     ctx.rule("C03.T5", "all_ancestors is a complete predecessor closure seeded with all required nodes and the output; prune removes exactly the complement")
+    ctx.rule("C03.T7", "every worker is joined before run returns, also on KeyboardInterrupt (an abandoned in-flight write could land after a later run's write)")
     ctx.rule("C03.T6", "the stale check examines a copy from which only unregistered source literals were removed")
     ctx.assume("determinism of calls, stores returning what was written and increasing modified times are assumptions of the property; value equality over histories is not decided")
     er = E.discover(ctx.model)
@@ -18,7 +19,8 @@ def check(ctx):
     ctx.run(S.rule_stale_table, "C03.T1", rr)
     ctx.notes["exhaustive"] = True
     ctx.run(S.rule_order_only, "C03.T2", rr)
-    from .c18 import rule_normaliser_frames
+    from .c18 import rule_normaliser_frames, rule_store_time_frames
+    ctx.run(rule_store_time_frames, "C03.T2")
     ctx.run(rule_normaliser_frames, "C03.T2")
     ctx.run(S.rule_owner_writes_only, "C03.T3", rr)
     ctx.run(S.rule_every_stale_entry_rebuilt, "C03.T4", rr)
@@ -29,3 +31,6 @@ def check(ctx):
     from .extra import rule_fresh_time_untouched
     ctx.run(rule_fresh_time_untouched, "C03.T2", rr)
     ctx.run(S.rule_apply_examines_whole_plan, "C03.T6", rr)
+    # interrupted runs are part of the histories: no store write may still be in flight when run returns
+    ctx.run(E.rule_pool_joins, "C03.T7", er)
+    ctx.run(E.rule_interrupt_cleanup, "C03.T7", er)
